@@ -201,11 +201,13 @@ def run_case(case, R):
         # the same arrays, and constant ones, in every storage representation (terms stored unsorted, extra zero terms, unused names, views)
         items = []
         base = list(arrays("quick"))[::7]
-        consts = [(("q0", "q1"), (3,), "const", "i8", spec(("q0", "q1"), (3,), [((0, 0), [4, 5, 6])])),
+        consts = [(("q0", "q1"), (2,), "cancel", "i8", spec(("q0", "q1"), (2,), [((0, 1), [1, -1])])),
+                  (("q0", "q1"), (2, 2), "cancel2", "i8", spec(("q0", "q1"), (2, 2), [((1, 1), [1, -1, 2, -2]), ((0, 0), [2, -2, 0, 0])])),
+                  (("q0", "q1"), (3,), "const", "i8", spec(("q0", "q1"), (3,), [((0, 0), [4, 5, 6])])),
                   (("q0", "q1"), (), "const0", "f8", spec(("q0", "q1"), (), [((0, 0), 7.5)], "f8")),
                   (("q1",), (2, 2), "const2", "i8", spec(("q1",), (2, 2), [((0,), [1, -2, 0, 3])]))]
         for n_, s_, r_, k_, sp_ in base + consts:
-            for var in ("unsorted", "zeroterm+unsorted", "unusedname+unsorted", "zeroterm+unsorted+T", "zeroterm+view", "bigalloc+unsorted"):
+            for var in ("canon", "unsorted", "zeroterm+unsorted", "unusedname+unsorted", "zeroterm+unsorted+T", "zeroterm+view", "bigalloc+unsorted"):
                 if var.endswith("+T") and len(s_) < 2:
                     continue
                 items.append((n_, s_, f"{r_}/{var}", k_, dict(sp_, v=var)))
